@@ -135,6 +135,9 @@ struct Input {
     named_stream: bool,
     /// rdf:type written as `a` in the window block
     a_keyword: bool,
+    /// `PREFIX k: <http://k/>` declared and vocabulary IRIs written as prefixed names in the
+    /// query (and inside SPARQL RULE texts)
+    prefixed: bool,
     patterns: Vec<Pat>,
     rules: Vec<RuleSpec>,
     items: Vec<(usize, LT)>,
@@ -156,6 +159,16 @@ impl Input {
     fn slide_eff(&self) -> usize {
         self.slide.unwrap_or(self.width)
     }
+    fn term(&self, cst: &str) -> String {
+        if self.prefixed {
+            if let Some(local) = cst.strip_prefix(NS) {
+                if !local.is_empty() && local.chars().all(|ch| ch.is_ascii_alphanumeric()) {
+                    return format!("k:{}", local);
+                }
+            }
+        }
+        term_text(cst)
+    }
     fn pat_text(&self, p: &Pat) -> String {
         let t = |x: &PT, pred: bool| match x {
             PT::V(n) => format!("?{}", n),
@@ -163,7 +176,7 @@ impl Input {
                 if pred && self.a_keyword && cst == RDF_TYPE {
                     "a".to_string()
                 } else {
-                    term_text(cst)
+                    self.term(cst)
                 }
             }
         };
@@ -182,7 +195,8 @@ impl Input {
         }
         let pats: Vec<String> = self.patterns.iter().map(|p| self.pat_text(p)).collect();
         format!(
-            "REGISTER {} <http://k/out> AS\nSELECT *\nFROM NAMED WINDOW :w ON {} [{}]\nWHERE {{ WINDOW :w {{ {} . }} }}",
+            "{}REGISTER {} <http://k/out> AS\nSELECT *\nFROM NAMED WINDOW :w ON {} [{}]\nWHERE {{ WINDOW :w {{ {} . }} }}",
+            if self.prefixed { "PREFIX k: <http://k/>\n" } else { "" },
             op.name(),
             if self.named_stream { ":s1" } else { "?stream" },
             spec,
@@ -211,10 +225,10 @@ impl Input {
     fn sparql_rule_texts(&self) -> Vec<String> {
         let t = |x: &PT| match x {
             PT::V(n) => format!("?{}", n),
-            PT::C(cst) => term_text(cst),
+            PT::C(cst) => self.term(cst),
         };
         let blk = |ps: &[Pat]| ps.iter().map(|p| format!("{} {} {} .", t(&p.0), t(&p.1), t(&p.2))).collect::<Vec<_>>().join(" ");
-        self.rules.iter().enumerate().map(|(i, r)| format!("RULE :R{} :-\nCONSTRUCT {{ {} }}\nWHERE {{ {} }} .", i, blk(&r.concl), blk(&r.prem))).collect()
+        self.rules.iter().enumerate().map(|(i, r)| format!("{}RULE :R{} :-\nCONSTRUCT {{ {} }}\nWHERE {{ {} }} .", if self.prefixed { "PREFIX k: <http://k/>\n" } else { "" }, i, blk(&r.concl), blk(&r.prem))).collect()
     }
     fn to_json(&self) -> Value {
         json!({
@@ -1556,6 +1570,7 @@ fn gen_input(r: &mut Rng, thorough: bool) -> Input {
         sparql_rules: r.chance(1, 4) && rules.iter().all(|x| x.concl.len() == 1),
         standard_exec: r.chance(1, 4),
         a_keyword: r.coin(),
+        prefixed: r.coin(),
         patterns,
         rules,
         items,
@@ -1568,7 +1583,7 @@ fn gen_input(r: &mut Rng, thorough: bool) -> Input {
 // phases
 
 fn scripted_inputs() -> Vec<(&'static str, Input)> {
-    let base = Input { width: 2, slide: Some(1), rep: Rep::Default, iso: false, named_stream: false, foreign: vec![], feed_name: ":s1", sparql_rules: false, standard_exec: false, a_keyword: true, patterns: vec![], rules: vec![], items: vec![], use_stop: false, preparse: false };
+    let base = Input { width: 2, slide: Some(1), rep: Rep::Default, iso: false, named_stream: false, foreign: vec![], feed_name: ":s1", sparql_rules: false, standard_exec: false, a_keyword: true, prefixed: false, patterns: vec![], rules: vec![], items: vec![], use_stop: false, preparse: false };
     let sub = cls(0);
     let sup = cls(1);
     let t = |s: usize, k: &str| (ent(s), RDF_TYPE.to_string(), k.to_string());
@@ -1710,7 +1725,7 @@ fn overlap_exhaustive(ctx: &mut Ctx, name: &str, len: usize, subset: bool, share
                 }
                 items.push((ts, pool[it].clone()));
             }
-            let input = Input { width, slide: Some(slide), rep, iso: false, named_stream: false, foreign: vec![], feed_name: ":s1", sparql_rules: false, standard_exec: false, a_keyword: false, patterns: patterns.clone(), rules: rules.clone(), items, use_stop: true, preparse: false };
+            let input = Input { width, slide: Some(slide), rep, iso: false, named_stream: false, foreign: vec![], feed_name: ":s1", sparql_rules: false, standard_exec: false, a_keyword: false, prefixed: false, patterns: patterns.clone(), rules: rules.clone(), items, use_stop: true, preparse: false };
             let plan = Plan { schedules: if code % 9 == 4 { 2 } else { 0 }, shrink: true };
             let ch = check_input(ctx, &input, &plan, &mut sr, vname);
             done += 1;
